@@ -363,7 +363,7 @@ func init() {
 		Exhaustive:  func(t core.Tier) bool { return false },
 		Plan: func(tier core.Tier, seed int64) int {
 			if tier == core.Thorough {
-				return 4 + 4000 + 64 + 200
+				return 4 + 60000 + 64 + 2000
 			}
 			return 4 + 300 + 16 + 20
 		},
@@ -374,7 +374,7 @@ func init() {
 func runC13(c *core.Ctx, idx int) {
 	nNested, nCk := 300, 16
 	if c.Tier == core.Thorough {
-		nNested, nCk = 4000, 64
+		nNested, nCk = 60000, 64
 	}
 	switch {
 	case idx < 4:
